@@ -275,10 +275,14 @@ class _Sink:
 _G = {}
 
 
-def _work(index):
+def _work(item):
+    index, obj = item
     sink = _Sink(index)
-    n = _replay(sink, _G['ctx'], _G['objs'][index], _G['ELFFile'])
-    return index, n, sink.mism, sink.notes
+    n = _replay(sink, _G['ctx'], obj, _G['ELFFile'])
+    view = obj['B']['view']
+    summary = {'object': obj['A']['key'], 'tags': [[denote(t[0]), sorted(t[1]), denote(t[2]), t[3]] for t in view['tags']][:8],
+               'count': view['count'], 'symbols': len(view['syms'])}
+    return index, n, sink.mism, sink.notes, summary
 
 
 def _replay(run, ctx, obj, ELFFile):
@@ -357,52 +361,68 @@ def _replay(run, ctx, obj, ELFFile):
     return len(view['tags'])
 
 
+def _objects(run, path, cfg, stats):
+    """Objects of one TLC run, assembled from their three keyed lines as they complete (the file is not kept in memory)."""
+    pending, done = {}, set()
+    for c in run.cases(path):
+        if 'tables' in c:
+            continue
+        k = core.digest(c['key'])
+        if k in done:
+            raise core.MachineryError('Dynamic/%s: an object was written twice: %s' % (cfg, json.dumps(c['key'])[:200]))
+        slot = pending.setdefault(k, {})
+        if c['part'] in slot:
+            raise core.MachineryError('Dynamic/%s: a line was written twice: %s' % (cfg, json.dumps(c['key'])[:200]))
+        slot[c['part']] = c
+        if len(slot) == 3:
+            done.add(k)
+            del pending[k]
+            stats['n'] += 1
+            yield stats['n'], slot
+    if pending:
+        raise core.MachineryError('Dynamic/%s: %d incomplete objects, e.g. %s' % (cfg, len(pending), sorted(next(iter(pending.values())))))
+
+
 def _g_check(run, ELFFile):
-    cfgs = ['Dynamic_quick'] if run.tier == 'quick' else ['Dynamic_thorough']
+    cfgs = ['Dynamic_quick'] if run.tier == 'quick' else ['Dynamic_thorough', 'Dynamic_thorough3']
     ctx = None
     ntags = 0
     undet = []
+    seen = set()
     for cfg in cfgs:
-        res = run.tlc('Dynamic', cfg, env=JVM)
-        objs = {}
-        for c in run.cases(res.out):
-            if 'tables' in c:
-                if ctx is None:
-                    ctx = _Ctx(c['tables'])
-                continue
-            k = json.dumps(c['key'], sort_keys=True)
-            slot = objs.setdefault(k, {})
-            if c['part'] in slot and slot[c['part']] != c:
-                raise core.MachineryError('Dynamic/%s: two different lines for one key' % cfg)
-            slot[c['part']] = c
+        res = run.tlc('Dynamic', cfg, env=JVM, timeout=1800)
+        if ctx is None:
+            with open(res.out) as fh:
+                for line in fh:
+                    if 'tables' in line[:40]:
+                        v = json.loads(line)
+                        ctx = _Ctx((json.loads(v) if isinstance(v, str) else v)['tables'])
+                        break
         if ctx is None:
             raise core.MachineryError('Dynamic/%s emitted no tables record' % cfg)
-        keys = sorted(objs)
-        for k in keys:
-            if set(objs[k]) != {'A', 'S', 'B'}:
-                raise core.MachineryError('Dynamic/%s: incomplete object %s: %s' % (cfg, k[:200], sorted(objs[k])))
-        _G.update(ctx=ctx, objs=[objs[k] for k in keys], ELFFile=ELFFile)
+        _G.update(ctx=ctx, ELFFile=ELFFile)
         nproc = max(1, min(core.NPROC, 8))
         pool = None
+        stats = {'n': 0}
         try:
-            if nproc > 1 and len(keys) > 64:
+            if nproc > 1:
                 import multiprocessing
                 pool = multiprocessing.get_context('fork').Pool(nproc)
-                results = pool.imap(_work, range(len(keys)), chunksize=16)
+                results = pool.imap(_work, _objects(run, res.out, cfg, stats), chunksize=8)
             else:
-                results = map(_work, range(len(keys)))
-            for index, n, mism, notes in results:
-                obj = _G['objs'][index]
-                view = obj['B']['view']
-                nontriv = len(view['tags']) > 1
-                run.count(core.digest(keys[index]), nontrivial=nontriv)
+                results = map(_work, _objects(run, res.out, cfg, stats))
+            for index, n, mism, notes, summary in results:
+                kd = core.digest(summary['object'])
+                if kd in seen:
+                    continue                                  # the same object from two configurations
+                seen.add(kd)
+                nontriv = n > 1
+                run.count(kd, nontrivial=nontriv)
                 if nontriv and len(run.samples) < 3 and run.evaluations % 397 == 11:
-                    run.samples.append({'object': obj['A']['key'],
-                                        'tags': [[denote(t[0]), sorted(t[1]), denote(t[2]), t[3]] for t in view['tags']][:8],
-                                        'count': view['count'], 'symbols': len(view['syms'])})
+                    run.samples.append(summary)
                 ntags += n
                 for clause, tag, case, exp, got in mism:
-                    run.mismatch(clause, tag, case if case is not None else {'object': obj['A']['key']}, exp, got)
+                    run.mismatch(clause, tag, case if case is not None else {'object': summary['object']}, exp, got)
                 for note in notes:
                     if len(undet) < 8:
                         undet.append(note)
@@ -410,6 +430,8 @@ def _g_check(run, ELFFile):
             if pool is not None:
                 pool.terminate()
             _G.clear()
+        if stats['n'] == 0:
+            raise core.MachineryError('Dynamic/%s emitted no object' % cfg)
     run.validated += run.evaluations
     run.extra['tags_replayed'] = ntags
     run.extra['count_not_determined_samples'] = undet
